@@ -31,90 +31,96 @@ def run(ctx):
     files = ["hypergraphx/communities/hypergraph_mt/model.py", "hypergraphx/communities/hy_sc/model.py"]
     ctx.add_sites(res, ctx.sites(rules=("C-SIG",), files=files))
     for cls in ("HypergraphMT", "HySC"):
-        check_self_attrs(ctx, res, cls)
+        with res.guard("check_self_attrsctx, res, cls"):
+            check_self_attrs(ctx, res, cls)
         n = check_external_methods(ctx, res, cls, ("self.incidence", "self.binary_incidence"), "scipy.sparse", "csr_array")
         if n < 3:
             raise AnalysisError(f"{cls}: only {n} uses of the sparse incidence found")
     # ---- HypergraphMT seeding
-    ss = ctx.view("HypergraphMT._set_seed")
-    gens = [n for n in ast.walk(ss.fi.node) if isinstance(n, ast.Call) and R.extern_name(ctx.prog, ss.fi, n) in ("numpy.random.RandomState", "numpy.random.default_rng")]
-    res.check(bool(gens) and all(g.args and norm(g.args[0]) == "seed" for g in gens), "R-SEEDED", ss.fi.short, norm(gens[0]) if gens else "np.random.RandomState(seed)", "from-seed", "the generator is not constructed from the seed", loc(ss.fi, ss.fi.node))
-    st = [n for n in ast.walk(ss.fi.node) if isinstance(n, ast.Assign) and is_self_attr(n.targets[0], "prng")]
-    res.check(bool(st), "R-SEEDED", ss.fi.short, "self.prng = ...", "stored", "the seeded generator is not stored as self.prng", loc(ss.fi, ss.fi.node))
-    M.check_none_tests(ctx, res, "HypergraphMT._set_seed", params=("seed",))
-    fit = ctx.view("HypergraphMT.fit")
-    cfp = ctx.view("HypergraphMT._check_fit_params")
-    fw = [n for n in ast.walk(fit.fi.node) if isinstance(n, ast.Call) and isinstance(n.func, ast.Attribute) and n.func.attr == "_check_fit_params"]
-    res.check(bool(fw) and all(any(k.arg == "seed" and norm(k.value) == "seed" for k in c.keywords) for c in fw), "R-SEEDED", fit.fi.short, "self._check_fit_params(seed=seed)", "forward", "fit's seed is not handed to the parameter check that seeds the generator", loc(fit.fi, fit.fi.node))
-    sc = [n for n in ast.walk(cfp.fi.node) if isinstance(n, ast.Call) and isinstance(n.func, ast.Attribute) and n.func.attr == "_set_seed"]
-    res.check(bool(sc) and all(c.args and norm(c.args[0]) == "seed" for c in sc), "R-SEEDED", cfp.fi.short, norm(sc[0]) if sc else "self._set_seed(seed)", "set", "the generator is not (re)seeded with fit's seed", loc(cfp.fi, cfp.fi.node))
-    rs = [n for n in ast.walk(fit.fi.node) if isinstance(n, ast.Call) and isinstance(n.func, ast.Attribute) and n.func.attr == "_set_seed"]
-    for c in rs:
-        names = {norm(x) for x in ast.walk(c.args[0])} if c.args else set()
-        res.check("self.seed" in names and any(x.startswith("self.prng.") for x in names), "R-SEEDED", fit.fi.short, norm(c), "reseed", "the per-realisation re-seeding does not derive from the seeded stream (self.seed + self.prng.randint(...))", loc(fit.fi, c))
-    for cls, entry in (("HypergraphMT", "HypergraphMT.fit"), ("HySC", "HySC.fit")):
-        e = ctx.require(entry)
-        clo = R.closure(ctx, e)
-        nd = 0
-        for g in clo:
-            for d in R.draws_in(ctx, g):
-                nd += 1
-                if d.source.startswith("global:"):
-                    res.violation("R-GLOBAL", g.short, norm(d.node), d.source, f"a draw from a global module state is reachable from {entry}: two runs with the same seed differ", d.where())
-                else:
-                    recv = d.source.split(":", 1)[1]
-                    res.check(recv == "self.prng", "R-SEEDED", g.short, norm(d.node), recv, f"draw from `{recv}`, not from the seeded self.prng", d.where())
-        res.ok("R-GLOBAL", e.short, f"{nd} draw sites in {len(clo)} reachable functions", "scan", loc(e, e.node))
-        if cls == "HypergraphMT" and nd < 4:
-            raise AnalysisError(f"only {nd} draw sites found in the closure of {entry}")
-    # seed handed to the spectral initialiser
-    for d in ("HypergraphMT._initialize_u0", "HypergraphMT._initialize_u_w"):
-        v = ctx.view(d)
-        cs = [n for n in ast.walk(v.fi.node) if isinstance(n, ast.Call) and norm(n.func) == "calculate_u_HySC"]
-        for c in cs:
-            res.check(any(k.arg == "seed" and norm(k.value) == "self.seed" for k in c.keywords), "R-SEEDED", v.fi.short, norm(c), "hysc-seed", "the spectral initialisation is not seeded with the model's seed", loc(v.fi, c))
-    v = ctx.view("model.calculate_u_HySC") if ctx.has("model.calculate_u_HySC") else None
-    cu = ctx.prog.functions.get("hypergraphx.communities.hypergraph_mt.model.calculate_u_HySC")
-    if cu is None:
-        raise AnalysisError("calculate_u_HySC not found")
-    cs = [n for n in ast.walk(cu.node) if isinstance(n, ast.Call) and norm(n.func) == "HySC"]
-    res.check(bool(cs) and all(any(k.arg == "seed" and norm(k.value) == "seed" for k in c.keywords) for c in cs), "R-SEEDED", cu.short, norm(cs[0]) if cs else "HySC(seed=seed)", "hysc-ctor", "HySC is constructed without the seed", loc(cu, cu.node))
+    with res.guard("HypergraphMT seeding"):
+        ss = ctx.view("HypergraphMT._set_seed")
+        gens = [n for n in ast.walk(ss.fi.node) if isinstance(n, ast.Call) and R.extern_name(ctx.prog, ss.fi, n) in ("numpy.random.RandomState", "numpy.random.default_rng")]
+        res.check(bool(gens) and all(g.args and norm(g.args[0]) == "seed" for g in gens), "R-SEEDED", ss.fi.short, norm(gens[0]) if gens else "np.random.RandomState(seed)", "from-seed", "the generator is not constructed from the seed", loc(ss.fi, ss.fi.node))
+        st = [n for n in ast.walk(ss.fi.node) if isinstance(n, ast.Assign) and is_self_attr(n.targets[0], "prng")]
+        res.check(bool(st), "R-SEEDED", ss.fi.short, "self.prng = ...", "stored", "the seeded generator is not stored as self.prng", loc(ss.fi, ss.fi.node))
+        with res.guard("M.check_none_testsctx, res, HypergraphMT._set_seed, paramsseed,"):
+            M.check_none_tests(ctx, res, "HypergraphMT._set_seed", params=("seed",))
+        fit = ctx.view("HypergraphMT.fit")
+        cfp = ctx.view("HypergraphMT._check_fit_params")
+        fw = [n for n in ast.walk(fit.fi.node) if isinstance(n, ast.Call) and isinstance(n.func, ast.Attribute) and n.func.attr == "_check_fit_params"]
+        res.check(bool(fw) and all(any(k.arg == "seed" and norm(k.value) == "seed" for k in c.keywords) for c in fw), "R-SEEDED", fit.fi.short, "self._check_fit_params(seed=seed)", "forward", "fit's seed is not handed to the parameter check that seeds the generator", loc(fit.fi, fit.fi.node))
+        sc = [n for n in ast.walk(cfp.fi.node) if isinstance(n, ast.Call) and isinstance(n.func, ast.Attribute) and n.func.attr == "_set_seed"]
+        res.check(bool(sc) and all(c.args and norm(c.args[0]) == "seed" for c in sc), "R-SEEDED", cfp.fi.short, norm(sc[0]) if sc else "self._set_seed(seed)", "set", "the generator is not (re)seeded with fit's seed", loc(cfp.fi, cfp.fi.node))
+        rs = [n for n in ast.walk(fit.fi.node) if isinstance(n, ast.Call) and isinstance(n.func, ast.Attribute) and n.func.attr == "_set_seed"]
+        for c in rs:
+            names = {norm(x) for x in ast.walk(c.args[0])} if c.args else set()
+            res.check("self.seed" in names and any(x.startswith("self.prng.") for x in names), "R-SEEDED", fit.fi.short, norm(c), "reseed", "the per-realisation re-seeding does not derive from the seeded stream (self.seed + self.prng.randint(...))", loc(fit.fi, c))
+        for cls, entry in (("HypergraphMT", "HypergraphMT.fit"), ("HySC", "HySC.fit")):
+            e = ctx.require(entry)
+            clo = R.closure(ctx, e)
+            nd = 0
+            for g in clo:
+                for d in R.draws_in(ctx, g):
+                    nd += 1
+                    if d.source.startswith("global:"):
+                        res.violation("R-GLOBAL", g.short, norm(d.node), d.source, f"a draw from a global module state is reachable from {entry}: two runs with the same seed differ", d.where())
+                    else:
+                        recv = d.source.split(":", 1)[1]
+                        res.check(recv == "self.prng", "R-SEEDED", g.short, norm(d.node), recv, f"draw from `{recv}`, not from the seeded self.prng", d.where())
+            res.ok("R-GLOBAL", e.short, f"{nd} draw sites in {len(clo)} reachable functions", "scan", loc(e, e.node))
+            if cls == "HypergraphMT" and nd < 4:
+                raise AnalysisError(f"only {nd} draw sites found in the closure of {entry}")
+        # seed handed to the spectral initialiser
+        for d in ("HypergraphMT._initialize_u0", "HypergraphMT._initialize_u_w"):
+            v = ctx.view(d)
+            cs = [n for n in ast.walk(v.fi.node) if isinstance(n, ast.Call) and norm(n.func) == "calculate_u_HySC"]
+            for c in cs:
+                res.check(any(k.arg == "seed" and norm(k.value) == "self.seed" for k in c.keywords), "R-SEEDED", v.fi.short, norm(c), "hysc-seed", "the spectral initialisation is not seeded with the model's seed", loc(v.fi, c))
+        v = ctx.view("model.calculate_u_HySC") if ctx.has("model.calculate_u_HySC") else None
+        cu = ctx.prog.functions.get("hypergraphx.communities.hypergraph_mt.model.calculate_u_HySC")
+        if cu is None:
+            raise AnalysisError("calculate_u_HySC not found")
+        cs = [n for n in ast.walk(cu.node) if isinstance(n, ast.Call) and norm(n.func) == "HySC"]
+        res.check(bool(cs) and all(any(k.arg == "seed" and norm(k.value) == "seed" for k in c.keywords) for c in cs), "R-SEEDED", cu.short, norm(cs[0]) if cs else "HySC(seed=seed)", "hysc-ctor", "HySC is constructed without the seed", loc(cu, cu.node))
     # ---- HySC: KMeans(random_state=seed), fit passes self.seed
-    ak = ctx.view("HySC.apply_kmeans")
-    km = [n for n in ast.walk(ak.fi.node) if isinstance(n, ast.Call) and norm(n.func) == "KMeans"]
-    if not km:
-        raise AnalysisError("HySC.apply_kmeans: KMeans call not found")
-    for c in km:
-        res.check(any(k.arg == "random_state" and norm(k.value) == "seed" for k in c.keywords), "R-SEEDED", ak.fi.short, norm(c), "kmeans", "k-means is not seeded with the seed argument", loc(ak.fi, c))
-    hf = ctx.view("HySC.fit")
-    ac = [n for n in ast.walk(hf.fi.node) if isinstance(n, ast.Call) and isinstance(n.func, ast.Attribute) and n.func.attr == "apply_kmeans"]
-    res.check(bool(ac) and all(any(k.arg == "seed" and norm(k.value) == "self.seed" for k in c.keywords) for c in ac), "R-SEEDED", hf.fi.short, norm(ac[0]) if ac else "self.apply_kmeans(..., seed=self.seed)", "fit-seed", "fit does not hand the model's seed to k-means", loc(hf.fi, hf.fi.node))
+    with res.guard("HySC: KMeans(random_state=seed), fit passes self.seed"):
+        ak = ctx.view("HySC.apply_kmeans")
+        km = [n for n in ast.walk(ak.fi.node) if isinstance(n, ast.Call) and norm(n.func) == "KMeans"]
+        if not km:
+            raise AnalysisError("HySC.apply_kmeans: KMeans call not found")
+        for c in km:
+            res.check(any(k.arg == "random_state" and norm(k.value) == "seed" for k in c.keywords), "R-SEEDED", ak.fi.short, norm(c), "kmeans", "k-means is not seeded with the seed argument", loc(ak.fi, c))
+        hf = ctx.view("HySC.fit")
+        ac = [n for n in ast.walk(hf.fi.node) if isinstance(n, ast.Call) and isinstance(n.func, ast.Attribute) and n.func.attr == "apply_kmeans"]
+        res.check(bool(ac) and all(any(k.arg == "seed" and norm(k.value) == "self.seed" for k in c.keywords) for c in ac), "R-SEEDED", hf.fi.short, norm(ac[0]) if ac else "self.apply_kmeans(..., seed=self.seed)", "fit-seed", "fit does not hand the model's seed to k-means", loc(hf.fi, hf.fi.node))
     # ---- I-ROWS
-    stores = [n for n in walk_no_nested(ak.fi.node) if isinstance(n, ast.Assign) and isinstance(n.targets[0], ast.Subscript) and norm(n.targets[0].value) == "X_pred"]
-    if not stores:
-        raise AnalysisError("HySC.apply_kmeans: label store not found")
-    for s in stores:
-        sl = s.targets[0].slice
-        row, col = (sl.elts + [None, None])[:2] if isinstance(sl, ast.Tuple) else (sl, None)
-        lp = ak.enclosing(s, (ast.For,))
-        ok = False
-        if lp is not None and isinstance(lp.iter, ast.Call) and norm(lp.iter.func) == "enumerate" and norm(lp.iter.args[0]) == "self.non_isolates" and isinstance(lp.target, ast.Tuple):
-            pos, node = norm(lp.target.elts[0]), norm(lp.target.elts[1])
-            ok = norm(row) == node and col is not None and norm(col) == f"y_pred[{pos}]"
-        elif lp is None:
-            ok = norm(row) == "self.non_isolates" and col is not None and norm(col) == "y_pred"
-        res.check(ok, "I-ROWS", ak.fi.short, norm(s), "rows=non_isolates", "cluster labels are not written to the rows of the non-isolated nodes in their own order: isolated nodes get a community and non-isolated ones lose theirs", loc(ak.fi, s))
+    with res.guard("I-ROWS"):
+        stores = [n for n in walk_no_nested(ak.fi.node) if isinstance(n, ast.Assign) and isinstance(n.targets[0], ast.Subscript) and norm(n.targets[0].value) == "X_pred"]
+        if not stores:
+            raise AnalysisError("HySC.apply_kmeans: label store not found")
+        for s in stores:
+            sl = s.targets[0].slice
+            row, col = (sl.elts + [None, None])[:2] if isinstance(sl, ast.Tuple) else (sl, None)
+            lp = ak.enclosing(s, (ast.For,))
+            ok = False
+            if lp is not None and isinstance(lp.iter, ast.Call) and norm(lp.iter.func) == "enumerate" and norm(lp.iter.args[0]) == "self.non_isolates" and isinstance(lp.target, ast.Tuple):
+                pos, node = norm(lp.target.elts[0]), norm(lp.target.elts[1])
+                ok = norm(row) == node and col is not None and norm(col) == f"y_pred[{pos}]"
+            elif lp is None:
+                ok = norm(row) == "self.non_isolates" and col is not None and norm(col) == "y_pred"
+            res.check(ok, "I-ROWS", ak.fi.short, norm(s), "rows=non_isolates", "cluster labels are not written to the rows of the non-isolated nodes in their own order: isolated nodes get a community and non-isolated ones lose theirs", loc(ak.fi, s))
     # ---- I-ISOL
-    for d in ("HySC._init_data", "HypergraphMT._check_fit_params"):
-        v = ctx.view(d)
-        iso = {}
-        for n in walk_no_nested(v.fi.node):
-            if isinstance(n, ast.Assign) and any(is_self_attr(n.targets[0], a) for a in ("isolates", "non_isolates")):
-                iso[n.targets[0].attr] = n.value
-        if set(iso) != {"isolates", "non_isolates"}:
-            raise AnalysisError(f"{v.fi.short}: isolates / non_isolates definition not found")
-        a, b = norm(iso["isolates"]), norm(iso["non_isolates"])
-        res.check("== 0" in a and "!= 0" in b and a.replace("== 0", "X") == b.replace("!= 0", "X"), "I-ISOL", v.fi.short, a, "complementary", "isolates and non_isolates are not the zero / non-zero rows of the same count vector", loc(v.fi, v.fi.node))
-        res.check("self.incidence" in a or "self.binary_incidence" in a, "I-ISOL", v.fi.short, a, "from-incidence", "isolated nodes are not detected from the incidence matrix", loc(v.fi, v.fi.node))
+    with res.guard("I-ISOL"):
+        for d in ("HySC._init_data", "HypergraphMT._check_fit_params"):
+            v = ctx.view(d)
+            iso = {}
+            for n in walk_no_nested(v.fi.node):
+                if isinstance(n, ast.Assign) and any(is_self_attr(n.targets[0], a) for a in ("isolates", "non_isolates")):
+                    iso[n.targets[0].attr] = n.value
+            if set(iso) != {"isolates", "non_isolates"}:
+                raise AnalysisError(f"{v.fi.short}: isolates / non_isolates definition not found")
+            a, b = norm(iso["isolates"]), norm(iso["non_isolates"])
+            res.check("== 0" in a and "!= 0" in b and a.replace("== 0", "X") == b.replace("!= 0", "X"), "I-ISOL", v.fi.short, a, "complementary", "isolates and non_isolates are not the zero / non-zero rows of the same count vector", loc(v.fi, v.fi.node))
+            res.check("self.incidence" in a or "self.binary_incidence" in a, "I-ISOL", v.fi.short, a, "from-incidence", "isolated nodes are not detected from the incidence matrix", loc(v.fi, v.fi.node))
     res.assumptions += ["scipy.sparse.csr_array is introspected on a 1x1 instance of the installed library (trusted base)", "sklearn KMeans with a fixed random_state is deterministic (library)"]
     return res
